@@ -22,6 +22,7 @@ mod net;
 mod quake;
 mod reader;
 mod real;
+mod realseq;
 mod settings;
 mod small;
 mod unreal2;
@@ -51,6 +52,7 @@ fn entries() -> Vec<(&'static str, EntryFn)> {
     v.extend(cli::entries());
     v.extend(quake::entries());
     v.extend(real::entries());
+    v.extend(realseq::entries());
     v.extend(unreal2::entries());
     v.extend(minecraft::entries());
     v.extend(gs3::entries());
